@@ -76,7 +76,7 @@ ASSUMPTIONS = [
     "agree; tokenizer leniency is out of scope",
     "aiohttp/cookiejar.py reads the clock only through its module global `time` (checked by a canary at shard start)",
     "an expiry exactly equal to the current time is grey (either outcome accepted)",
-    "wire stratum: MemPipe/VLoop deliver bytes like a selector transport (selftest/test_engine.py)",
+    "wire stratum: MemPipe/VLoop deliver bytes like a selector transport (selftest/smoke_engine.py)",
 ]
 FILES = ["aiohttp/cookiejar.py", "aiohttp/_cookie_helpers.py", "aiohttp/client.py", "aiohttp/abc.py"]
 ANCHORS = [
